@@ -1132,6 +1132,7 @@ func cdcevReplay(args []string) error {
 	out := fs.String("out", "mismatch.ndjson", "")
 	trace := fs.String("trace", "", "observed outcomes for TraceCDCEvents")
 	every := fs.Int("every", 1, "run the filter / ids-only modes on every n-th case")
+	execEvery := fs.Int("execevery", 1, "run the second path (db.Execute) on every n-th case")
 	paths := fs.String("paths", "req,exec", "")
 	traceMax := fs.Int("tracemax", 1<<30, "at most this many trace lines")
 	bulk := fs.Int("bulk", 0, "also run the bulk / schema-change scenarios with this many rows")
@@ -1178,6 +1179,9 @@ func cdcevReplay(args []string) error {
 			}
 			for ci, c := range cases {
 				if mi > 0 && (ci+mi)%*every != 0 {
+					continue
+				}
+				if pi > 0 && ci%*execEvery != 0 {
 					continue
 				}
 				r, err := e.run(c, path)
